@@ -61,6 +61,12 @@ def design_results(pid, tier, plan):
                 with open(cp, "w") as f:
                     json.dump(r, f)
         never = [a for a, n in r.get("coverage", {}).items() if n == 0 and a not in mc.get("may_be_unused", [])]
+        if mc.get("expect_fail"):
+            # a configuration that must exhibit a violation (a named deviation or a deliberately broken engine):
+            # it shows that the invariants discriminate; it never makes the check fail
+            out["configs"].append({"config": name, "expected": "violation", "violated": (not r["ok"]) and not r["to"],
+                                   "distinct_states": r["distinct"], "wall_s": round(r["wall"], 1)})
+            continue
         out["configs"].append({"config": name, "ok": r["ok"], "distinct_states": r["distinct"], "states_generated": r["generated"],
                                "depth": r.get("depth", 0), "actions_taken": r.get("coverage", {}), "never_taken": never,
                                "wall_s": round(r["wall"], 1), "timed_out": r["to"]})
@@ -81,8 +87,10 @@ def only(*tags):
 
 PLANS = {}
 
+COMBO_LOGICS = ["QF_UFLRA", "QF_UFLIA", "QF_ALIA", "QF_AUFLIA", "QF_UFLRA", "QF_UFLIA"]
 PLANS["C01"] = {
     "jobs": lambda seed, tier: spread(seed, "C01", N(tier, 130, 2600), ALL_LOGICS, "answers") +
+                               spread(seed, "C01i", N(tier, 30, 600), COMBO_LOGICS, "answers", mode="interface") +
                                spread(seed, "C01b", N(tier, 26, 600), ALL_LOGICS, "answers", more_cfgs=["la", "ghost"]),
     "rule": "random incremental scripts over all supported logic families; the kernel (TLC) evaluates candidate models "
             "(from z3, from the solver's own get-model, from its grid) of the active assertions at every check-sat; "
@@ -93,19 +101,32 @@ PLANS["C01"] = {
 PLANS["C02"] = {
     "jobs": lambda seed, tier: spread(seed, "C02", N(tier, 150, 3000),
                                       ["QF_BOOL", "QF_LIA", "QF_IDL", "QF_LIA", "QF_BOOL", "QF_IDL", "QF_UF", "QF_LRA", "QF_UFLIA",
-                                       "QF_RDL", "QF_ALIA", "QF_AX", "QF_UFLRA"], "answers", n_assert=6),
+                                       "QF_RDL", "QF_ALIA", "QF_AX", "QF_UFLRA"], "answers", n_assert=6) +
+                               spread(seed, "C02i", N(tier, 60, 1200), COMBO_LOGICS, "answers", mode="interface"),
     "rule": "as C01; refutations by the kernel: exhaustive grid for propositional and boxed-integer scripts, "
             "congruence closure / Fourier-Motzkin / Bellman-Ford refutations where implemented; sat answers are also "
             "checked by evaluating the printed model (C03 monitor)",
     "assumptions": ["kernel refutation is exact only in the stated fragments; elsewhere the verdict is unknown and nothing is claimed"],
 }
 PLANS["C03"] = {
-    "jobs": lambda seed, tier: spread(seed, "C03", N(tier, 150, 3000), MODEL_LOGICS, "models"),
+    "jobs": lambda seed, tier: spread(seed, "C03", N(tier, 150, 3000), MODEL_LOGICS, "models") +
+                               spread(seed, "C03i", N(tier, 60, 1200), ["QF_UFLRA", "QF_UFLIA"], "models", mode="interface"),
     "rule": "satisfiable-biased scripts with get-model, get-value and get-assignment after every check; non-trivial = a model was printed",
 }
+def frames_jobs(seed, pid, n):
+    jobs = spread(seed, pid, n, ALL_LOGICS, "frames", module="MainSolver_Trace")
+    cfgsets = [["c0"], ["cores"], ["itp"], ["proofs"], ["c0", "la"], ["ghost"], ["nosubst"]]
+    for i, j in enumerate(jobs):
+        j["cfgs"] = cfgsets[i % len(cfgsets)]
+        j["mode"] = ["cnf", "random", "unsatbiased", "cnf"][i % 4]
+    return jobs
 PLANS["C04"] = {
     "jobs": lambda seed, tier: spread(seed, "C04", N(tier, 80, 1600), ALL_LOGICS, "incremental") +
-                               spread(seed, "C04c", N(tier, 90, 1800), ["QF_BOOL", "QF_LRA", "QF_UF", "QF_LIA", "QF_IDL", "QF_UFLRA"], "incremental", mode="cnf"),
+                               spread(seed, "C04c", N(tier, 90, 1800), ["QF_BOOL", "QF_LRA", "QF_UF", "QF_LIA", "QF_IDL", "QF_UFLRA"], "incremental", mode="cnf") +
+                               frames_jobs(seed, "C04f", N(tier, 120, 2400)),
+    "mc": [{"module": "MC_MainSolver", "cfg": "MC_MainSolver_quick", "cfg_thorough": "MC_MainSolver", "workers": 8, "timeout": 1500},
+           {"module": "MC_MainSolver", "cfg": "MC_MainSolver_nocf", "expect_fail": True, "owner": False},
+           {"module": "MC_MainSolver", "cfg": "MC_MainSolver_stale", "expect_fail": True, "owner": False}],
     "rule": "incremental histories (push/pop/assert/check/get-*) plus, for every check-sat, a fresh run on the flattened "
             "active assertions; memo keyed by the specification's own Active set",
 }
@@ -142,6 +163,14 @@ def itp_jobs(seed, pid, n, groups):
         if r.random() < 0.4: io.append((":simplify-interpolants", str(r.randint(0, 4))))
         jobs.append({"builder": "itp", "seed": s, "logic": ITP_LOGICS[len(jobs) % len(ITP_LOGICS)], "itp_opts": io,
                      "groups": groups if groups else r.choice([2, 2, 3]), "n_named": 4 if groups == 2 else 5})
+    # conjunctions of inequalities built from a Farkas certificate, with local and shared variables: every run
+    # reaches the LRA interpolation algorithms (incl. the decomposing ones) with a conflict of 5 to 9 rows
+    for i, s in enumerate(seeds(seed, pid + "f", max(n // 3, 8))):
+        io = [(":interpolation-lra-algorithm", str([0, 2, 3, 4, 5, 4, 5][i % 7]))]
+        if r.random() < 0.3: io.append((":interpolation-lra-factor", r.choice(['"1/2"', '"1/4"', '"3/4"'])))
+        if r.random() < 0.3: io.append((":simplify-interpolants", str(r.randint(0, 4))))
+        jobs.append({"builder": "itp", "mode": "farkas", "seed": s, "logic": ["QF_LRA", "QF_LRA", "QF_LIA"][i % 3], "itp_opts": io,
+                     "groups": groups if groups else 2})
     return jobs
 PLANS["C08"] = {
     "jobs": lambda seed, tier: itp_jobs(seed, "C08", N(tier, 120, 2400), 2),
